@@ -26,6 +26,9 @@ pub enum Enc {
     Utf8,
     Latin1,
     ShiftJis,
+    /// stateful 7-bit encoding: every byte of the encoded text is ASCII
+    Iso2022Jp,
+    EucKr,
 }
 
 impl Enc {
@@ -36,6 +39,8 @@ impl Enc {
             Enc::Utf8 => "utf-8",
             Enc::Latin1 => "latin1",
             Enc::ShiftJis => "shift_jis",
+            Enc::Iso2022Jp => "iso-2022-jp",
+            Enc::EucKr => "euc-kr",
         }
     }
     pub fn from_label(s: &str) -> Enc {
@@ -44,6 +49,8 @@ impl Enc {
             "utf-16be" => Enc::Utf16Be,
             "latin1" => Enc::Latin1,
             "shift_jis" => Enc::ShiftJis,
+            "iso-2022-jp" => Enc::Iso2022Jp,
+            "euc-kr" => Enc::EucKr,
             _ => Enc::Utf8,
         }
     }
@@ -133,6 +140,14 @@ pub fn reference_transcode(raw: &[u8], label: Option<Enc>, sniff: bool) -> Vec<u
         }
         Some(Enc::ShiftJis) => {
             let (s, _) = encoding_rs::SHIFT_JIS.decode_without_bom_handling(raw);
+            s.into_owned().into_bytes()
+        }
+        Some(Enc::Iso2022Jp) => {
+            let (s, _) = encoding_rs::ISO_2022_JP.decode_without_bom_handling(raw);
+            s.into_owned().into_bytes()
+        }
+        Some(Enc::EucKr) => {
+            let (s, _) = encoding_rs::EUC_KR.decode_without_bom_handling(raw);
             s.into_owned().into_bytes()
         }
     }
@@ -313,7 +328,28 @@ pub fn gen_case(rng: &mut Rng) -> Case17 {
             if raw.starts_with(b"\xff\xfe") || raw.starts_with(b"\xfe\xff") || raw.starts_with(b"\xef\xbb\xbf") {
                 raw.insert(0, b' ');
             }
-            (raw, Some(Enc::ShiftJis), true)
+            // the same text under two other legacy labels: a stateful
+            // 7-bit one (every encoded byte is ASCII) and a Korean one
+            match rng.below(4) {
+                0 => {
+                    let (b, _, _) = encoding_rs::ISO_2022_JP.encode(&t);
+                    let mut raw = b.into_owned();
+                    if raw.is_empty() {
+                        raw.push(b' ');
+                    }
+                    (raw, Some(Enc::Iso2022Jp), true)
+                }
+                1 => {
+                    let t2 = t.replace('語', "한").replace('日', "글");
+                    let (b, _, _) = encoding_rs::EUC_KR.encode(&t2);
+                    let mut raw = b.into_owned();
+                    if raw.starts_with(b"\xff\xfe") || raw.starts_with(b"\xfe\xff") || raw.starts_with(b"\xef\xbb\xbf") || raw.is_empty() {
+                        raw.insert(0, b' ');
+                    }
+                    (raw, Some(Enc::EucKr), true)
+                }
+                _ => (raw, Some(Enc::ShiftJis), true),
+            }
         }
         7 => {
             // BOM overrides a conflicting label
@@ -428,6 +464,8 @@ pub fn check_case(case: &Case17, legs: &[Leg], rep: &mut Report) {
             Enc::Utf8 => "label_utf8",
             Enc::Latin1 => "label_latin1",
             Enc::ShiftJis => "label_shift_jis",
+            Enc::Iso2022Jp => "label_iso_2022_jp",
+            Enc::EucKr => "label_euc_kr",
         },
     };
     rep.count(kind);
@@ -457,7 +495,13 @@ pub fn check_case(case: &Case17, legs: &[Leg], rep: &mut Report) {
             continue;
         }
         let got = flatten(&out.log, case.cfg.term);
-        if got != ref_log && transcoded.starts_with(b"\xef\xbb\xbf") {
+        // (only where a decoder is at work: with sniffing off and no label
+        // the bytes are searched raw, and a mark that disappears then is a
+        // violation of its own)
+        if got != ref_log
+            && transcoded.starts_with(b"\xef\xbb\xbf")
+            && (case.sniff || case.label.is_some())
+        {
             // Known finding: the decoded text itself begins with U+FEFF (a
             // second mark right after the byte-order mark, or after a
             // label-decoded start). The transcoding reader removes it too.
